@@ -351,7 +351,7 @@ func parseFuncDirective(fc *FuncContract, word, rest, file string, line int) {
 		return &Clause{Kind: kind, Label: label, Props: props, Src: r2, Expr: parseExprSrc(r2, file, line), Loop: loop, File: file, Line: line}
 	}
 	switch word {
-	case "requires", "ensures", "assert", "cover":
+	case "requires", "ensures", "assert", "cover", "canary":
 		fc.Clauses = append(fc.Clauses, mk(word, rest, -1))
 	case "loop":
 		f := strings.SplitN(rest, " ", 3)
